@@ -55,6 +55,12 @@ func runC20(p *eng.Prog, r *eng.Report, tier string) {
 	c20AccumulatorsPerIteration(c, "C20.8", f)
 	c20WholeListsHashed(c, "C20.22", f)
 	c20EveryNameCanBeLookedUp(c, "C20.23")
+	// C20.25 (= C19.23): encoding a form (the disco#info responder submits and encodes its forms for every
+	// request) does not write into the form: the hash of the value before and after serving it is the same
+	c.r.Floor("C20.25", "encoders of form and disco examined for writes through the receiver", encodersReadOnly(c, "C20.25", func(f *eng.Fn) bool {
+		return strings.HasPrefix(f.Short, "form.") || strings.HasPrefix(f.Short, "disco.") || strings.HasPrefix(f.Short, "disco/")
+	}), 5)
+	c.r.Floor("C20.24", "closures returned by the constructors of package form", optionClosuresKeepNoState(c, "C20.24", "form."), 5)
 	c20SortsCopies(c, "C20.9")
 	c20ComparatorsAreOrders(c, "C20.10")
 	c20DecoderKeepsEveryValue(c, "C20.11")
@@ -76,6 +82,9 @@ func runC20(p *eng.Prog, r *eng.Report, tier string) {
 	c.r.Floor("C20.19", "start-element edges in the token loops of the hashed payloads", decoderLoopVisitsEveryChild(c, "C20.19", inHashed), 1)
 	decodeTargetsAreFresh(c, "C20.20", inHashed, 1)
 	decodersKeepEveryElement(c, "C20.21", inHashed, 1)
+	// C20.26 (= C19.9): Skip never runs right after the element's own end tag (an empty <title/> in front
+	// of the fields would swallow the rest of the form: the decoded reply hashes without its fields)
+	decoderSkipTypestate(c, "C20.26", inHashed, 1)
 	hname := "p1"
 	// ---- C20.4b the encoder's output buffer never overlaps the digest ----------
 	nenc := 0
